@@ -44,6 +44,10 @@ SymChars ==
     rf |-> <<114, 102>>, rF |-> <<114, 70>>, Rf |-> <<82, 102>>, RF |-> <<82, 70>>,
     fr |-> <<102, 114>>, fR |-> <<102, 82>>, Fr |-> <<70, 114>>, FR |-> <<70, 82>>,
     Rb |-> <<82, 98>>, bR |-> <<98, 82>>, BR |-> <<66, 82>>,
+    \* identifiers with a special spelling: soft keywords (ordinary names almost everywhere), the
+    \* lone underscore, and one hard keyword (a NAME for the tokenizer, never an atom)
+    smatch |-> <<109, 97, 116, 99, 104>>, scase |-> <<99, 97, 115, 101>>, stype |-> <<116, 121, 112, 101>>,
+    us |-> <<95>>, knot |-> <<110, 111, 116>>,
     d |-> <<49>>,            \* digit 1
     ue |-> <<233>>,          \* e-acute: non-ASCII identifier character
     sp |-> <<32>>, tab |-> <<9>>, nl |-> <<10>>, semi |-> <<59>>,
@@ -54,7 +58,8 @@ SymChars ==
     lp |-> <<40>>, rp |-> <<41>>, lb |-> <<91>>, rb |-> <<93>>, lc |-> <<123>>, rc |-> <<125>>,
     dot |-> <<46>>, eq |-> <<61>>, comma |-> <<44>> ]
 
-IsLetter(c) == c \in {97, 98, 114, 102, 117, 82, 70, 66, 233}
+IsLetter(c) == c \in 97..122 \/ c \in {82, 70, 66, 95, 233}
+IsHardKeyword(run) == run = <<110, 111, 116>>          \* not
 IsDigit(c) == c = 49
 IsId(c) == IsLetter(c) \/ IsDigit(c)
 IsQuote(c) == c \in {39, 34}
@@ -81,6 +86,7 @@ L0 ==
     com |-> FALSE, cstart |-> 0,
     emptyq |-> 0,          \* quote character of an empty short string just closed
     regions |-> <<>>, stmts |-> <<>>, names |-> <<>>, joins |-> <<>>,
+    kws |-> <<>>,          \* start offsets of the NAME tokens that are keywords, not identifiers
     bjoins |-> <<>>,       \* backslash continuations met inside brackets (redundant but legal)
     toks |-> <<>>,         \* working token stack for attribute chains
     err |-> FALSE ]
@@ -106,6 +112,12 @@ TokStart(L) ==
 
 EndRun(L) ==
   IF ~L.inrun THEN L
+  ELSE IF IsHardKeyword(L.rlet)
+  THEN \* a keyword is a NAME token but not an atom: what follows it starts a new primary
+       [L EXCEPT !.inrun = FALSE, !.rlet = <<>>,
+                 !.names = Append(@, <<L.rstart, L.pos, L.rstart>>),
+                 !.kws = Append(@, L.rstart),
+                 !.toks = Append(@, Tok("op", L.rstart, L.rstart))]
   ELSE LET cs == ChainStart(L.toks, L.rstart) IN
        [L EXCEPT !.inrun = FALSE, !.rlet = <<>>,
                  !.names = Append(@, <<L.rstart, L.pos, cs>>),
